@@ -431,6 +431,38 @@ def _slice_arithmetic(ctx: Ctx, cbs, gpb):
                sample=dict(term=shown, grid_points=n))
     col.count("slice_arith_terms", len(found))
     col.floor("slice_arith_terms", len(found), 9)
+    # the output extent must not truncate any scatter mask: seen from one row, every position a mask selects lies
+    # below the extent the output was allocated with (the batch-wide maximum is at least the row's own value)
+    alloc = [c for c in own_calls(cbs.node) if isinstance(c.func, ast.Attribute) and c.func.attr in ("new_full", "new_zeros", "new_empty")
+             and c.args and isinstance(c.args[0], ast.Tuple) and len(c.args[0].elts) == 3]
+    if len(alloc) != 1:
+        raise AnalysisError("C09: chunk_by_slices does not allocate its (N, Tp, F) output once")
+    ex.row_level = True
+    try:
+        ext = ex.term(alloc[0].args[0].elts[1])
+    except MM.Unknown as e:
+        col.undecided(f"C09: output extent of chunk_by_slices: {e}")
+        ext = None
+    if ext is not None:
+        worst = None
+        for key in ("left-buffer-positions", "right-buffer-positions", "reflect-tail-target", "kept-positions"):
+            expr, _ = found[key]
+            try:
+                term = ex.cond(expr)
+            except MM.Unknown:
+                continue
+            for env in grid(False):
+                e_ = MM.ev(ext, env)
+                for t in range(0, 30):
+                    env["t"] = t
+                    if t >= e_ and MM.evc(term, env) and worst is None:
+                        worst = (key, dict(env), e_)
+        col.ob("G23", "S6", f"{rel}::chunk_by_slices::output-extent-covers-every-scatter", worst is None,
+               f"the output is allocated with `{MM.show(ext)}` positions per row (batch maximum of that), but the "
+               f"{worst and worst[0]} mask selects position t={worst and worst[1]['t']} at start={worst and worst[1]['S']}, "
+               f"end={worst and worst[1]['E']}, len={worst and worst[1]['L']} (extent {worst and worst[2]}): the mask is "
+               f"truncated while its source buffer keeps all elements, so every later masked_scatter is misaligned", rel,
+               alloc[0].lineno, sample=MM.show(ext))
 
 
 def _pad_arithmetic(ctx: Ctx, pv, gpb):
@@ -617,6 +649,7 @@ def _mutants():
         M("sequence-placed-at-zero", P, "mid_mask = ((pad[0] + lens).unsqueeze(1) > arange[:Tp])", "mid_mask = (lens.unsqueeze(1) > arange[:Tp])", "pad-arithmetic["),
         M("new-lens-left-twice", P, "new_lens = lens + pad.sum(0)", "new_lens = lens + pad[0] + pad[0]", "pad-arithmetic[right-buffer-positions]"),
         M("twin:new-lens-spelled-out", P, "right_mask = (new_lens.unsqueeze(1) > arange[:Tp])", "right_mask = ((lens + pad[0] + pad[1]).unsqueeze(1) > arange[:Tp])", "", twin=True),
+        M("extent-forgets-right-pad", P, "Tp = int(torch.max(torch.max(left_pad.max(), chunk_lens.max()), right_pad.max()).item())", "Tp = int(torch.max(left_pad.max(), chunk_lens.max()).item())", "output-extent-covers-every-scatter"),
         M("twin:rename-left-max", P, "left_max", "lmax", "", -1, twin=True),
     ]
 
